@@ -2,6 +2,7 @@ SPECIFICATION Spec
 CONSTANTS
   MaxFields = 3
   EscAbsCheck = TRUE
+  DupCheck = TRUE
   RangeCheck = TRUE
 INVARIANT Total
 INVARIANT Rejects
